@@ -88,6 +88,8 @@ def observe(spec, inputs):
                 m.flatten()
             elif op == "to_json":
                 m.to_json()
+            elif op == "to_b64":
+                m.to_b64()
             elif op == "to_text":
                 m.to_text()
             elif op == "to_short":
